@@ -67,8 +67,8 @@ ASSUMPTIONS = [
 ]
 BOUNDS = {
     "quick": dict(affine_shapes=["()->()", "(2,)->(2,)", "(3,)->(2,)", "(2,2)->(3,)"], base_orders=[2, 4, 5],
-                  adaptive="default depth (16 - base_order levels); shapes with <= 6 Jacobian entries",
-                  fixed_depth="richardson_iter 0, 1, 3 (scalar), 0, 3 ((2,)), 2 ((3,)), 1 ((2,2))",
+                  adaptive="default depth (16 - base_order levels); shapes with <= 6 Jacobian entries (base order 4: <= 4 entries)",
+                  fixed_depth="richardson_iter 0, 1, 3 (scalar), 0, 3 ((2,)), 2 ((3,)), 1 ((2,2)); base order 4 only on scalar and (2,)",
                   polynomials="1 variable, degree <= 4", history_length=3, history_alphabet="J H U A B",
                   history_states=["(1,) symbolic", "(2,) zero state"]),
     "thorough": dict(affine_shapes=["()->()", "(2,)->(2,)", "(3,)->(2,)", "(2,2)->(3,)"], base_orders=[2, 4, 5],
@@ -110,6 +110,8 @@ def instances(tier):
         m = int(np.prod(sout)) if sout else 1
         ent = n * m
         for bo in (2, 4, 5):
+            if quick and bo == 4 and n > 2:
+                continue          # quick: base order 4 on the scalar and (2,) shapes only (same code path as 5, different weights)
             # adaptive, default Richardson depth
             if ent <= (6 if quick else 12):
                 out.append(dict(id="affine-%s-to-%s-bo%d-adaptive" % (_tag(sin), _tag(sout), bo), kind="affine", sin=list(sin), sout=list(sout),
@@ -131,7 +133,8 @@ def instances(tier):
     for bo in (2, 4, 5):
         deg_exact = 2 if bo == 2 else 4
         polys.append((1, deg_exact, bo, False, 1))
-        polys.append((1, deg_exact, bo, True, None))
+        if not (quick and bo == 4):
+            polys.append((1, deg_exact, bo, True, None))
         if bo == 2:
             polys.append((1, 3, 2, False, 3))     # h^2 error term removed by the first Richardson extrapolation
             polys.append((1, 3, 2, True, None))
